@@ -5,6 +5,7 @@ import (
 	"strings"
 
 	"github.com/go-kid/ioc/app"
+	"github.com/go-kid/ioc/container"
 
 	"verif/internal/core"
 	"verif/internal/envx"
@@ -52,6 +53,37 @@ type c13AppRunN struct {
 	early bool
 }
 
+// eager components that are container extension points as well (the usual way to get hold of the
+// factory / the definition registry): they are ordinary components too and must be wired and
+// initialised before the first runner
+type c13FPP struct {
+	Dep scen.Iface `wire:"a"`
+	rt  *scen.RT
+}
+
+func (*c13FPP) Naming() string { return "zfpp" }
+func (*c13FPP) PostProcessComponentFactory(container.Factory) error {
+	return nil
+}
+func (p *c13FPP) Init() error {
+	p.rt.Event(fmt.Sprintf("init:zfpp:dep=%v", p.Dep != nil))
+	return nil
+}
+
+type c13Scan struct {
+	Dep scen.Iface `wire:"a"`
+	rt  *scen.RT
+}
+
+func (*c13Scan) Naming() string { return "zscan" }
+func (*c13Scan) PostProcessDefinitionRegistry(container.DefinitionRegistry, any, string) error {
+	return nil
+}
+func (p *c13Scan) Init() error {
+	p.rt.Event(fmt.Sprintf("init:zscan:dep=%v", p.Dep != nil))
+	return nil
+}
+
 func c13AppName(nm string, early bool) string {
 	if early {
 		return "a-" + nm // sorts before the App's own component name
@@ -83,6 +115,23 @@ func c13Gen(c *core.Ctx) func(yield func(c13Case) bool) {
 				for f := 0; f < len(s); f++ {
 					for _, m := range []int{0, 1<<len(s) - 1} {
 						if !yield(c13Case{Seq: s, LazyMask: m, Fail: f, ErrShape: shape}) {
+							stop = true
+							return false
+						}
+					}
+				}
+				return true
+			})
+			if stop {
+				return
+			}
+		}
+		{
+			stop := false
+			seqs(2, 11, func(s []int) bool {
+				for f := -1; f < len(s); f++ {
+					for _, d := range []bool{false, true} {
+						if !yield(c13Case{Seq: s, Fail: f, Background: 3, Desc: d}) {
 							stop = true
 							return false
 						}
@@ -155,6 +204,8 @@ func c13Run(c *core.Ctx) {
 			p.N, p.Edges = 3, mkEdges(3)
 			p.Edges[0][1] = scen.EName
 			p.Lazy = []bool{false, true, true}
+		case 3: // chain, plus a factory post-processor and a scanner that are ordinary eager components too
+			p.Edges[0][1] = scen.EName
 		}
 		if cs.Desc {
 			for i := p.N - 1; i >= 0; i-- {
@@ -197,6 +248,9 @@ func c13Run(c *core.Ctx) {
 				if cs.Zero>>i&1 == 1 {
 					out = append(out, z)
 				}
+			}
+			if cs.Background == 3 {
+				out = append(out, &c13FPP{rt: rt}, &c13Scan{rt: rt})
 			}
 			return out
 		}
@@ -274,6 +328,16 @@ func c13Run(c *core.Ctx) {
 				c.Outcome("runner-before-ready")
 				c.Report(key("notready"), "runner-before-ready", fmt.Sprintf("%s: runner invoked although %s was not initialised; log=%v", desc, scen.Name(i, p.N), log), cs)
 				return
+			}
+		}
+		if cs.Background == 3 && len(ran) > 0 {
+			before := strings.Join(log[:firstRun], " ")
+			for _, w := range []string{"init:zfpp:dep=true", "init:zscan:dep=true"} {
+				if !strings.Contains(before, w) {
+					c.Outcome("runner-before-ready")
+					c.Report(key("notready"), "runner-before-ready", fmt.Sprintf("%s: a runner was invoked although an eager component that is a factory post-processor / scanner as well had not been wired and initialised (%s missing); log=%v", desc, w, log), cs)
+					return
+				}
 			}
 		}
 		var classes, orders []int
